@@ -43,6 +43,7 @@ inductive PVal where
   | dict (d : List (PVal × PVal))                   -- any mapping, insertion order
   | obj (cls : String) (params : List (String × PVal))   -- object with `to_dict` from `simple_serialization`
   | callable (name : String) (isSelf : Bool)        -- `module.__name__`, and whether that name resolves to the object itself
+  | ncallable (tag : String)                        -- callable object without `__name__` (functools.partial, quota.constant(5))
   | opaque (tag : String)                           -- no to_dict, not atomic/convertible, not iterable, not callable
 deriving Repr, Inhabited
 
@@ -61,7 +62,11 @@ deriving Repr, Inhabited
 structure Env where
   classes : List String
   callables : List String
+  others : List String := []        -- names that resolve to something else (not modelled further)
 deriving Repr, Inhabited
+
+def Env.resolves (env : Env) (n : String) : Bool :=
+  env.classes.contains n || env.callables.contains n || env.others.contains n
 
 /-! ### structural equality on `PVal` (no derive handler for nested inductives) -/
 mutual
@@ -77,6 +82,7 @@ def PVal.beq : PVal → PVal → Bool
   | .obj c a, .obj d b => decide (c = d) && beqF a b
   | .callable n s, .callable m t => decide (n = m) && decide (s = t)
   | .opaque a, .opaque b => decide (a = b)
+  | .ncallable a, .ncallable b => decide (a = b)
   | _, _ => false
 def beqL : List PVal → List PVal → Bool
   | [], [] => true
@@ -94,7 +100,7 @@ end
 
 mutual
 theorem PVal.beq_refl : ∀ a : PVal, a.beq a = true
-  | .atom _ | .frac _ | .dec _ | .opaque _ => by simp [PVal.beq]
+  | .atom _ | .frac _ | .dec _ | .opaque _ | .ncallable _ => by simp [PVal.beq]
   | .callable _ _ => by simp [PVal.beq]
   | .list l | .tuple l | .fset l | .set l => by simp [PVal.beq, beqL_refl l]
   | .dict d => by simp [PVal.beq, beqD_refl d]
@@ -116,6 +122,7 @@ theorem PVal.eq_of_beq : ∀ a b : PVal, a.beq b = true → a = b
   | .frac a, b => by cases b <;> simp [PVal.beq]
   | .dec a, b => by cases b <;> simp [PVal.beq]
   | .opaque a, b => by cases b <;> simp [PVal.beq]
+  | .ncallable a, b => by cases b <;> simp [PVal.beq]
   | .callable n s, b => by cases b <;> simp [PVal.beq]
   | .list l, b => by
       cases b <;> simp [PVal.beq]
@@ -221,6 +228,7 @@ def serialize : PVal → Except Err J
   | .set l => do let js ← serL l; pure (.list js)      -- L66-67: a set is just another iterable
   | .callable name isSelf =>                            -- L68-77
       if isSelf then pure (.dict [("callable", .str name)]) else throw Err.valueError
+  | .ncallable _ => throw (Err.other "AttributeError")  -- L69: `value.__name__` does not exist
   | .opaque _ => throw Err.valueError                   -- L78-79
 def serL : List PVal → Except Err (List J)
   | [] => pure []
@@ -291,7 +299,7 @@ def asList : Res → Except Err (List PVal)
   | .error e => throw e
 
 /-- `deserialize_typed` (L100-119); `R` holds the deserialisation result of every field of `d`. -/
-def deserTyped (d : List (String × J)) (R : List (String × Res)) : Res :=
+def deserTyped (env : Env) (d : List (String × J)) (R : List (String × Res)) : Res :=
   let tn := identAt d "type"
   if tn = "dict" then                                   -- L102-106
     match d.lookup "keys", R.lookup "keys" with
@@ -331,7 +339,8 @@ def deserTyped (d : List (String × J)) (R : List (String × Res)) : Res :=
     | some _, _ => throw unmodelled
     | none, _ => if (d.lookup "arguments").isSome || (d.lookup "parameters").isSome then throw unmodelled
                  else throw Err.valueError
-  else throw unmodelled
+  else if env.resolves tn then throw unmodelled          -- some other global / builtin would be called
+  else throw unresolvable                                -- L101 get_object: AttributeError / ImportError
 
 /-- `deserialize_class` (L122-131) for classes without a `from_dict` hook -/
 def deserClass (env : Env) (d : List (String × J)) (R : List (String × Res)) : Res :=
@@ -339,14 +348,16 @@ def deserClass (env : Env) (d : List (String × J)) (R : List (String × Res)) :
   if cn ∈ env.classes then do
     let ps ← seqFields (R.filter (fun p => p.1 ≠ "class"))
     pure (.obj cn ps)
+  else if env.resolves cn then throw unmodelled
   else throw unresolvable
 
 /-- the `isinstance(value, dict)` branch of `deserialize_value` (L83-91) -/
 def deserDict (env : Env) (d : List (String × J)) (R : List (String × Res)) : Res :=
-  if hasIdent d "type" then deserTyped d R
+  if hasIdent d "type" then deserTyped env d R
   else if hasIdent d "class" then deserClass env d R
   else if hasIdent d "callable" then
-    (if identAt d "callable" ∈ env.callables then pure (.callable (identAt d "callable") true) else throw unresolvable)
+    (if identAt d "callable" ∈ env.callables then pure (.callable (identAt d "callable") true)
+     else if env.resolves (identAt d "callable") then throw unmodelled else throw unresolvable)
   else do
     let ps ← seqFields R
     pure (.dict (ps.map (fun p => (PVal.atom (.str p.1), p.2))))
@@ -409,7 +420,7 @@ def Representable (env : Env) : PVal → Bool
   | .obj cls ps => isScopedIdent cls && decide (cls ∈ env.classes) && reprF env ps
                 && decide (ps.map (·.1)).Nodup && !(ps.map (·.1)).contains "class" && !reservedHitF ps
   | .callable n s => s && isScopedIdent n && decide (n ∈ env.callables)
-  | .opaque _ => false
+  | .ncallable _ | .opaque _ => false
 def reprL (env : Env) : List PVal → Bool
   | [] => true
   | v :: t => Representable env v && reprL env t
@@ -429,7 +440,7 @@ def Serializable : PVal → Bool
   | .dict d => serzD d
   | .obj _ ps => serzF ps
   | .callable _ s => s
-  | .opaque _ => false
+  | .ncallable _ | .opaque _ => false
 def serzL : List PVal → Bool
   | [] => true
   | v :: t => Serializable v && serzL t
